@@ -41,6 +41,7 @@ DESCS = (
     'Triple """ quotes inside',
     'How to escape them: \\""" (backslash, then three quotes)',
     "A back\\slash and a tab\tcharacter",
+    "A Windows path prefix: C:\\",
 )
 
 
@@ -49,7 +50,7 @@ def _desc(r, indent=""):
     if d is None:
         return ""
     d = d.replace('"""', '\\"""')  # the one escape of block strings
-    if "\n" in d or d.endswith('"') or d.startswith(" "):
+    if "\n" in d or d.endswith('"') or d.startswith(" ") or d.endswith("\\"):
         body = "\n".join(indent + l if l else "" for l in d.split("\n"))
         return '%s"""\n%s\n%s"""\n' % (indent, body, indent)
     return '%s"""%s"""\n' % (indent, d)
@@ -92,10 +93,11 @@ DEFAULTS = {
     "Int": ("0", "-3", "42"),
     "Float": ("1.5", "0.25", "-2.0", "0.0000001", "1e+20", "-1.5E-9"),
     # the SDL pool's custom scalar: string defaults that look like numbers
-    "Date": ('"2020-01-01"', '"02134"', '"1e3"', '"12"', "7"),
+    "Date": ('"2020-01-01"', '"02134"', '"1e3"', '"12"', "7", '"inf"', '"nan"',
+             '"-inf"', '"Infinity"'),
     "String": ('"x"', '"two words"', '"q\\"uote"', '""'),
     "Boolean": ("true", "false"),
-    "ID": ('"abc"', "12"),
+    "ID": ('"abc"', "12", '"12\\n"', '"007"'),
     "Color": ("RED", "BLUE"),
     "[Int]": ("[1, 2]", "[]", "null"),
     "[Color!]": ("[RED]", "[GREEN, BLUE]"),
@@ -117,6 +119,10 @@ def gen_sdl(seed, idx):
     mname = "RootM" if renamed else ("Subscription" if crossed
                                      else "Mutation")
     has_mut = crossed or r.random() < 0.5
+    # an ordinary object type that happens to be called like a root operation
+    # (the schema block lists the roots, so it is none)
+    stray = (not renamed and not crossed and not has_mut
+             and r.random() < 0.4)
     out.append('%sdirective @tag(name: String = "t", n: Int, shade: Color = RED, '
                'at: Pt) on OBJECT | '
                "FIELD_DEFINITION | ARGUMENT_DEFINITION | ENUM_VALUE | "
@@ -126,7 +132,7 @@ def gen_sdl(seed, idx):
     if r.random() < 0.5:
         # legal: directives and types live in different namespaces
         out.append("directive @Color(fmt: String) on FIELD_DEFINITION")
-    if renamed or crossed or r.random() < 0.2:
+    if renamed or crossed or stray or r.random() < 0.2:
         sd = "schema%s { query: %s%s }" % (
             _dirs(r, "SCHEMA"), qname,
             (" mutation: %s" % mname) if has_mut else "")
@@ -232,6 +238,9 @@ def gen_sdl(seed, idx):
     out.append("type %s {\n%s\n}" % (qname, "\n".join(qf)))
     if has_mut:
         out.append("type %s {\n  do_it(p: Pt = {x: 1}): Int\n}" % mname)
+    if stray:
+        out.append("type Mutation {\n  stray: Int\n}")
+        out.append("extend type %s {\n  stray_m: Mutation\n}" % qname)
     if not (renamed or crossed) and r.random() < 0.3:
         out.append("type Subscription {\n  ticks(a_int: Int = 3): Int\n}")
     # extensions
